@@ -77,7 +77,7 @@ IntMapper(raw, units) ==
             ELSE IF raw.v % 2 = 0 /\ FitsI64(raw.v \div 2) THEN Ok(I64(raw.v \div 2)) ELSE Rej
       [] raw.k = "fspecial" -> Rej
       [] raw.k = "bool" -> IF raw.rep = "named" THEN Rej ELSE Ok(I64(IF raw.v THEN 1 ELSE 0))
-      [] raw.k \in {"nil", "list", "map", "re", "junk"} -> Rej
+      [] raw.k \in {"nil", "list", "map", "re", "junk", "struct"} -> Rej
 
 \* float.go:150 floatInputMapper
 FloatMapper(raw, units) ==
@@ -92,7 +92,7 @@ FloatMapper(raw, units) ==
       [] raw.k = "float" -> IF raw.rep = "named" THEN Rej ELSE Ok(F64(raw.v))
       [] raw.k = "fspecial" -> Ok(FS("float64", raw.v))
       [] raw.k = "bool" -> IF raw.rep = "named" THEN Rej ELSE Ok(F64(IF raw.v THEN 2 ELSE 0))
-      [] raw.k \in {"nil", "list", "map", "re", "junk"} -> Rej
+      [] raw.k \in {"nil", "list", "map", "re", "junk", "struct"} -> Rej
 
 FSpecialName(x) == CASE x = "nan" -> "NaN" [] x = "+inf" -> "+Inf" [] x = "-inf" -> "-Inf"
 
@@ -102,7 +102,7 @@ StringMapper(raw) ==
       [] raw.k = "int" -> IF raw.rep = "named" THEN Rej ELSE Ok(Str(DecTok[raw.v]))
       [] raw.k = "float" -> IF raw.rep = "named" THEN Rej ELSE Ok(Str(FTok[raw.v]))
       [] raw.k = "fspecial" -> Ok(Str(FSpecialName(raw.v)))
-      [] raw.k \in {"nil", "bool", "list", "map", "re", "junk"} -> Rej
+      [] raw.k \in {"nil", "bool", "list", "map", "re", "junk", "struct"} -> Rej
 
 \* bool.go:24
 BoolMapper(raw) ==
@@ -112,7 +112,7 @@ BoolMapper(raw) ==
       [] raw.k = "int" ->
             IF raw.rep = "named" THEN Rej
             ELSE IF raw.v = 1 THEN Ok(B(TRUE)) ELSE IF raw.v = 0 THEN Ok(B(FALSE)) ELSE Rej
-      [] raw.k \in {"nil", "float", "fspecial", "list", "map", "re", "junk"} -> Rej
+      [] raw.k \in {"nil", "float", "fspecial", "list", "map", "re", "junk", "struct"} -> Rej
 
 \* ------------------------------------------------------------------ constraint checks (Serialize paths)
 IntBounds(s, n) == (s.min.some => n >= s.min.v) /\ (s.max.some => n <= s.max.v)
@@ -141,22 +141,22 @@ YesNo(b) == IF b THEN "yes" ELSE "no"
 AsIntClass(x) ==      \* int.go:82 asInt
     CASE x.k = "int" -> IF x.rep = "int64" THEN "native" ELSE "foreign"
       [] x.k \in {"float", "fspecial"} -> "foreign"
-      [] x.k \in {"nil", "bool", "str", "list", "map", "re", "junk"} -> "no"
+      [] x.k \in {"nil", "bool", "str", "list", "map", "re", "junk", "struct"} -> "no"
 AsFloatClass(x) ==    \* float.go:130 asFloat
     CASE x.k \in {"float", "fspecial"} -> IF x.rep = "float64" THEN "native" ELSE "foreign"
       [] x.k = "int" -> "foreign"
-      [] x.k \in {"nil", "bool", "str", "list", "map", "re", "junk"} -> "no"
+      [] x.k \in {"nil", "bool", "str", "list", "map", "re", "junk", "struct"} -> "no"
 AsStringClass(x, nativeRep) ==   \* string.go:163 asString / enum.go:144 asType
     CASE x.k = "str" -> IF x.rep = nativeRep THEN "native" ELSE "foreign"
       [] x.k = "int" -> "foreign"                       \* integer -> string conversion (a rune)
       [] x.k = "list" -> IF x.rep = "any" THEN "no" ELSE "foreign"   \* []byte / []rune convert
-      [] x.k \in {"nil", "bool", "float", "fspecial", "map", "re", "junk"} -> "no"
+      [] x.k \in {"nil", "bool", "float", "fspecial", "map", "re", "junk", "struct"} -> "no"
 AsBoolClass(x) ==     \* bool.go:107 asBool
     CASE x.k = "bool" -> IF x.rep = "bool" THEN "native" ELSE "foreign"
-      [] x.k \in {"nil", "int", "float", "fspecial", "str", "list", "map", "re", "junk"} -> "no"
+      [] x.k \in {"nil", "int", "float", "fspecial", "str", "list", "map", "re", "junk", "struct"} -> "no"
 
 \* ------------------------------------------------------------------ the four operations
-RECURSIVE Unser(_, _), Valid(_, _), Ser(_, _), CompatData(_, _), AnyConv(_), AnyCompat(_)
+RECURSIVE Unser(_, _), Valid(_, _), Ser(_, _), CompatData(_, _), AnyConv(_), AnyCompat(_), SubHasDefaults(_), ZeroStruct(_)
 
 \* any.go:227 checkAndConvert (the same function serves Unserialize, Validate and Serialize)
 AnyConv(x) ==
@@ -177,7 +177,198 @@ AnyConv(x) ==
             IN IF c # "yes" THEN Wrap(c, Nil)
                ELSE IF \E i, j \in 1..Len(x.v) : i < j /\ EqV(ks[i].v, ks[j].v) THEN Unspec   \* two raw keys, one key
                ELSE Ok(M("any_any", [i \in 1..Len(x.v) |-> <<ks[i].v, ws[i].v>>]))
-      [] x.k \in {"re", "junk"} -> Rej
+      [] x.k \in {"re", "junk", "struct"} -> Rej
+
+
+\* ------------------------------------------------------------------ objects: helpers
+Declares(s, n) == \E i \in DOMAIN s.props : s.props[i].name = n
+GoStringKey(k) == k.k = "str" /\ k.rep = "string"
+\* the value a mapping supplies under the Go string key n
+Supplied(x, n) ==
+    LET js == {j \in 1..Len(x.v) : GoStringKey(x.v[j][1]) /\ x.v[j][1].v = n}
+    IN IF js = {} THEN None ELSE Some(x.v[CHOOSE j \in js : TRUE][2])
+Without(x, n) == [x EXCEPT !.v = SelectSeq(x.v, LAMBDA q : ~(GoStringKey(q[1]) /\ q[1].v = n))]
+KeyNames(x) == {x.v[j][1].v : j \in {i \in 1..Len(x.v) : GoStringKey(x.v[i][1])}}
+
+\* object.go:518 validateFieldInterdependencies; D = the property names that are set ("set" =
+\* present in the mapping after defaulting)
+RuleOK(p, D) ==
+    IF p.name \in D THEN \A i \in DOMAIN p.conflicts : p.conflicts[i] \notin D
+    ELSE /\ ~p.required
+         /\ \A i \in DOMAIN p.required_if : p.required_if[i] \notin D
+         /\ (Len(p.required_if_not) = 0 \/ \E i \in DOMAIN p.required_if_not : p.required_if_not[i] \in D)
+PresenceOK(s, D) == \A i \in DOMAIN s.props : RuleOK(s.props[i], D)
+
+\* zero value of a by-value struct field
+ZeroOf(fk) ==
+    CASE fk = "int" -> I64(0)
+      [] fk = "string" -> Str("#empty")
+      [] fk = "bool" -> B(FALSE)
+      [] fk = "float" -> F64(0)
+      [] fk = "named" -> S("named", "#empty")
+      [] fk \in {"list_int", "list_string"} -> L("typed", <<>>)
+      [] fk = "map_string_int" -> M("typed", <<>>)
+FieldZero(s, p) ==
+    LET f == FieldOf(s.layout, p.name) IN
+    IF Nullable(f) THEN None ELSE IF f.fk = "sub" THEN Some(ZeroStruct(p.type)) ELSE Some(ZeroOf(f.fk))
+ZeroStruct(s) == Struct(s.layout, [i \in DOMAIN s.props |-> <<s.props[i].name, FieldZero(s, s.props[i])>>])
+
+\* the native value of an object from the (optional) native value of each property
+ObjValue(s, vals) ==
+    IF s.layout = "map"
+    THEN LET all == [i \in DOMAIN s.props |-> <<Str(s.props[i].name), vals[i]>>]
+             set == SelectSeq(all, LAMBDA q : q[2].some)
+         IN M("string_any", [i \in DOMAIN set |-> <<set[i][1], set[i][2].v>>])
+    ELSE Struct(s.layout, [i \in DOMAIN s.props |->
+                <<s.props[i].name, IF vals[i].some THEN vals[i] ELSE FieldZero(s, s.props[i])>>])
+
+\* object.go:452 applySubObjectDefaultValues (pinned by TestObjectNestedDefaults): in a struct-mapped
+\* object an absent member of object type whose Go type is not a pointer is built from its own defaults
+\* (an empty mapping is handed to it) whenever it declares any
+SubHasDefaults(t) ==
+    t.kind = "object" /\ \E i \in DOMAIN t.props :
+        t.props[i].default.some \/ (t.props[i].type.kind = "object" /\ RecvOf(t.props[i].type) # "pointer" /\ SubHasDefaults(t.props[i].type))
+\* what an absent property gets: its declared default (object.go:497; intended: exactly that - finding
+\* 19: the code merges the member's own defaults over it), else the propagated empty mapping
+EffectiveDefault(s, p) ==
+    IF p.default.some THEN p.default
+    ELSE IF s.layout # "map" /\ p.type.kind = "object" /\ RecvOf(p.type) # "pointer" /\ SubHasDefaults(p.type)
+         THEN Some(M("string_any", <<>>))
+    ELSE None
+
+\* property.go:133: a disabled property refuses every value
+PropUnser(p, x) == IF p.disabled THEN Rej ELSE Unser(p.type, x)
+
+\* object.go:108 Unserialize
+ObjUnser(s, x) ==
+    IF x.k # "map" THEN
+        \* object.go:135 single-property inline shorthand
+        IF Len(s.props) # 1 THEN Rej
+        ELSE LET r == PropUnser(s.props[1], x) IN
+             IF r.ok = "yes" THEN Ok(ObjValue(s, <<Some(r.v)>>)) ELSE r
+    ELSE IF \E j \in 1..Len(x.v) : ~GoStringKey(x.v[j][1]) \/ ~Declares(s, x.v[j][1].v) THEN Rej   \* object.go:484-491
+    ELSE LET raw == [i \in DOMAIN s.props |->
+                        LET sup == Supplied(x, s.props[i].name) IN
+                        IF sup.some THEN sup ELSE EffectiveDefault(s, s.props[i])]
+             D == {s.props[i].name : i \in {j \in DOMAIN s.props : raw[j].some}}
+             rs == [i \in DOMAIN s.props |-> IF raw[i].some THEN PropUnser(s.props[i], raw[i].v) ELSE OkU]
+             c == AllOk(rs)
+         IN IF c = "no" THEN Rej
+            ELSE IF ~PresenceOK(s, D) THEN Rej
+            ELSE IF c = "maybe" THEN Unspec
+            ELSE Ok(ObjValue(s, [i \in DOMAIN s.props |-> IF raw[i].some THEN Some(rs[i].v) ELSE None]))
+
+\* which properties a native object value has set, and their values
+\* (object.go:295 getFieldReflection: nil pointer / nil interface = absent; :375 treat-empty-as-default)
+NativeProps(s, v) ==
+    IF s.layout = "map"
+    THEN [i \in DOMAIN s.props |-> Supplied(v, s.props[i].name)]
+    ELSE [i \in DOMAIN s.props |->
+            LET f == v.v[i][2] IN
+            IF ~f.some THEN None
+            ELSE IF s.props[i].empty_is_default /\ FieldZero(s, s.props[i]).some /\ EqModRep(f.v, FieldZero(s, s.props[i]).v) THEN None
+            ELSE f]
+\* is v a value of the Go type the object's Validate / Serialize accept at all
+ObjShapeOK(s, v) ==
+    IF s.layout = "map" THEN v.k = "map" /\ v.rep = "string_any"
+    ELSE v.k = "struct" /\ v.t = s.layout /\ Len(v.v) = Len(s.props) /\ \A i \in DOMAIN s.props : v.v[i][1] = s.props[i].name
+
+\* object.go:443 Validate / :306 Serialize (validateMap, validateStruct)
+ObjValidWith(s, v, op(_, _)) ==
+    IF ~ObjShapeOK(s, v) THEN "no"
+    ELSE IF s.layout = "map" /\ \E n \in KeyNames(v) : ~Declares(s, n) THEN "no"
+    ELSE LET ps == NativeProps(s, v)
+             D == {s.props[i].name : i \in {j \in DOMAIN s.props : ps[j].some}}
+             c == AllOk([i \in DOMAIN s.props |-> IF ps[i].some THEN op(s.props[i].type, ps[i].v) ELSE OkU])
+         IN IF c = "no" \/ ~PresenceOK(s, D) THEN "no" ELSE c
+ObjValid(s, v) == LET op(t, w) == Valid(t, w) IN WrapU(ObjValidWith(s, v, op))
+ObjSer(s, v) ==
+    LET op(t, w) == Ser(t, w)
+        c == ObjValidWith(s, v, op)
+    IN IF c # "yes" THEN Wrap(c, Nil)
+       ELSE LET ps == NativeProps(s, v)
+                all == [i \in DOMAIN s.props |-> <<Str(s.props[i].name), IF ps[i].some THEN Some(Ser(s.props[i].type, ps[i].v).v) ELSE None>>]
+                set == SelectSeq(all, LAMBDA q : q[2].some)
+            IN Ok(M("string_any", [i \in DOMAIN set |-> <<set[i][1], set[i][2].v>>]))
+
+\* object.go:330 validateMapTypesCompatibility / :406 validateRawCompatibility (data mode)
+ObjCompat(s, x) ==
+    IF x.k = "map" /\ x.rep = "string_any" THEN
+        IF \E n \in KeyNames(x) : ~Declares(s, n) THEN Rej
+        ELSE LET cs == [i \in DOMAIN s.props |->
+                          LET sup == Supplied(x, s.props[i].name) IN
+                          IF ~sup.some THEN (IF s.props[i].required THEN Rej ELSE OkU)
+                          ELSE LET c == CompatData(s.props[i].type, sup.v) IN
+                               IF c.ok = "no" THEN Rej
+                               ELSE IF s.props[i].disabled THEN Rej                        \* property.go:176
+                               ELSE IF s.props[i].required /\ sup.v.k = "nil" THEN Rej    \* data[k] == nil
+                               ELSE c]
+             IN WrapU(AllOk(cs))
+    ELSE WrapU(Unser(s, x).ok)
+
+\* ------------------------------------------------------------------ one-of
+DiscKey(s, raw) == IF s.disc = "int" THEN IntMapper(raw, None) ELSE StringMapper(raw)     \* oneof.go:318
+MemberIdx(s, key) ==
+    LET is == {i \in DOMAIN s.members : s.members[i][1] = key.v}
+    IN IF is = {} THEN 0 ELSE CHOOSE i \in is : TRUE
+\* can the map be indexed with a Go string (oneof.go:90 MapIndex; finding 14: otherwise the code panics)
+StringIndexable(x) == x.rep \in {"string_any", "any_any"} \/ (x.rep = "typed" /\ \A j \in 1..Len(x.v) : GoStringKey(x.v[j][1]))
+NativeDisc(s, d) == IF s.disc = "int" THEN d.k = "int" /\ d.rep = "int64" ELSE GoStringKey(d)
+SetPair(m, n, val) == [m EXCEPT !.v = Append(SelectSeq(m.v, LAMBDA q : ~(GoStringKey(q[1]) /\ q[1].v = n)), <<Str(n), val>>)]
+
+\* oneof.go:76 UnserializeType
+OneOfUnser(s, x) ==
+    IF x.k # "map" THEN Rej
+    ELSE IF ~StringIndexable(x) THEN Rej
+    ELSE LET d == Supplied(x, s.field) IN
+         IF ~d.some THEN Rej
+         ELSE LET key == DiscKey(s, d.v) IN
+              IF key.ok # "yes" THEN Rej
+              ELSE IF \E j \in 1..Len(x.v) : ~GoStringKey(x.v[j][1]) THEN Rej
+              ELSE LET i == MemberIdx(s, key.v) IN
+                   IF i = 0 THEN Rej
+                   ELSE LET m == s.members[i][2]
+                            r == Unser(m, IF s.inlined THEN x ELSE Without(x, s.field))
+                        IN IF r.ok # "yes" THEN r
+                           \* intended: the TYPED discriminator travels with a map-based result (finding 16: the code
+                           \* re-attaches the raw one); when inlined the member unserialised the field itself
+                           ELSE IF r.v.k = "map" /\ ~s.inlined THEN Ok(SetPair(r.v, s.field, key.v))
+                           ELSE r
+
+\* oneof.go:353 findUnderlyingType + :250 validateMap: member and the value handed to it
+OneOfNative(s, v) ==
+    IF v.k = "map" THEN
+        IF v.rep # "string_any" THEN [ok |-> FALSE]        \* finding 14: map[any]any panics in the code
+        ELSE LET d == Supplied(v, s.field) IN
+             IF ~d.some \/ d.v.k = "nil" \/ ~NativeDisc(s, d.v) THEN [ok |-> FALSE]
+             ELSE LET i == MemberIdx(s, d.v) IN
+                  IF i = 0 THEN [ok |-> FALSE]
+                  ELSE [ok |-> TRUE, m |-> s.members[i][2], w |-> IF s.inlined THEN v ELSE Without(v, s.field), key |-> d.v, ismap |-> TRUE]
+    ELSE IF v.k = "struct" THEN
+        LET is == {i \in DOMAIN s.members : s.members[i][2].kind = "object" /\ s.members[i][2].layout = v.t}
+        IN IF is = {} THEN [ok |-> FALSE]
+           ELSE LET i == CHOOSE j \in is : TRUE IN
+                [ok |-> TRUE, m |-> s.members[i][2], w |-> v, ismap |-> FALSE,
+                 key |-> IF s.disc = "int" THEN I64(s.members[i][1]) ELSE Str(s.members[i][1])]
+    ELSE [ok |-> FALSE]
+OneOfValid(s, v) ==
+    LET n == OneOfNative(s, v) IN
+    IF ~n.ok THEN Rej
+    ELSE IF n.ismap THEN WrapU(Both(CompatData(n.m, n.w).ok, Valid(n.m, n.w).ok))   \* compatibility rules first, then Validate
+    ELSE Valid(n.m, n.w)
+OneOfSer(s, v) ==
+    LET n == OneOfNative(s, v) IN
+    IF ~n.ok THEN Rej
+    ELSE LET r == Ser(n.m, n.w)
+             c == IF n.ismap THEN Both(CompatData(n.m, n.w).ok, r.ok) ELSE r.ok
+         IN IF c # "yes" THEN Wrap(c, Nil)
+            ELSE IF Supplied(r.v, s.field).some THEN r ELSE Ok(SetPair(r.v, s.field, n.key))     \* oneof.go:176
+OneOfCompat(s, x) ==
+    IF x.k = "map" /\ x.rep = "string_any" THEN
+        LET n == OneOfNative(s, x) IN IF ~n.ok THEN Rej ELSE CompatData(n.m, n.w)
+    ELSE IF KindOf(x) = "struct" \/ (x.k = "junk" /\ x.v = "ptr") THEN
+        (IF x.k = "struct" THEN Unspec ELSE Rej)       \* taken for a schema (oneof.go:205)
+    ELSE OneOfValid(s, x)
 
 ScalarUnser(s, raw) ==
     CASE s.kind = "int" ->         \* int.go:56
@@ -219,6 +410,9 @@ Unser(s, raw) ==
                  IN IF c # "yes" THEN Wrap(c, Nil)
                     ELSE IF \E i, j \in 1..Len(raw.v) : i < j /\ EqModRep(ks[i].v, ks[j].v) THEN Unspec
                     ELSE Ok(M("typed", [i \in 1..Len(raw.v) |-> <<ks[i].v, ws[i].v>>]))
+      [] s.kind = "object" -> ObjUnser(s, raw)
+      [] s.kind = "oneof" -> OneOfUnser(s, raw)
+      [] s.kind = "scope" -> Unser(Unfold(s, VDepth(raw)), raw)     \* scope.go:79: the root object, references linked
 
 \* Validate: error or nil
 ScalarValid(s, x) ==
@@ -236,7 +430,7 @@ ScalarValid(s, x) ==
       [] s.kind = "pattern" ->     \* pattern.go:66; intended: a typed nil *regexp.Regexp is no pattern
             (CASE x.k = "re" -> OkU
                [] x.k = "junk" -> IF x.v = "nilre" THEN Unspec ELSE Rej
-               [] x.k \in {"nil", "bool", "int", "float", "fspecial", "str", "list", "map"} -> Rej)
+               [] x.k \in {"nil", "bool", "int", "float", "fspecial", "str", "list", "map", "struct"} -> Rej)
       [] s.kind = "enum_int" ->
             LET c == AsIntClass(x) IN
             IF c = "native" THEN WrapU(YesNo(Member(s, x.v))) ELSE IF c = "foreign" THEN Unspec ELSE Rej
@@ -256,6 +450,9 @@ Valid(s, x) ==
             ELSE IF ~SizeOK(s, Len(x.v)) THEN Rej
             ELSE WrapU(Both(AllOk([i \in 1..Len(x.v) |-> Valid(s.keys, x.v[i][1])]),
                             AllOk([i \in 1..Len(x.v) |-> Valid(s.values, x.v[i][2])])))
+      [] s.kind = "object" -> ObjValid(s, x)
+      [] s.kind = "oneof" -> OneOfValid(s, x)
+      [] s.kind = "scope" -> Valid(Unfold(s, VDepth(x)), x)
 
 \* Serialize: the wire form ([]any, map[any]any, int64, float64, string, bool)
 ScalarSer(s, x) ==
@@ -282,6 +479,9 @@ Ser(s, x) ==
                      a == Both(AllOk(ks), AllOk(ws))
                  IN IF a = "yes" THEN Ok(M("any_any", [i \in 1..Len(x.v) |-> <<ks[i].v, ws[i].v>>]))
                     ELSE Wrap(a, Nil)
+      [] s.kind = "object" -> ObjSer(s, x)
+      [] s.kind = "oneof" -> OneOfSer(s, x)
+      [] s.kind = "scope" -> Ser(Unfold(s, VDepth(x)), x)
 
 \* ------------------------------------------------------------------ data-mode ValidateCompatibility
 \* No property fixes its acceptance set (held to totality and determinism: C04, C12); the
@@ -318,6 +518,9 @@ CompatData(s, x) ==
             ELSE IF ~SizeOK(s, Len(x.v)) THEN Rej
             ELSE WrapU(Both(AllOk([i \in 1..Len(x.v) |-> CompatData(s.keys, x.v[i][1])]),
                             AllOk([i \in 1..Len(x.v) |-> CompatData(s.values, x.v[i][2])])))
+      [] s.kind = "object" -> ObjCompat(s, x)
+      [] s.kind = "oneof" -> OneOfCompat(s, x)
+      [] s.kind = "scope" -> CompatData(Unfold(s, VDepth(x)), x)
 
 Ops == {"unser", "valid", "ser", "compat"}
 Outcome(s, op, x) ==
